@@ -591,8 +591,26 @@ def irv_winner(cands, ballots):
     return standing[0] if standing else None
 
 
+def other_profile(rng, con, bids):
+    """another random profile over the contest's candidates (some ballot ids shared with the profile under test)"""
+    cands = list(con.candidates)
+    rng.shuffle(cands)
+    wts = [2 ** (len(cands) - i) for i in range(len(cands))]
+    prof = {}
+    for i in range(rng.randint(5, 40)):
+        r = []
+        for _ in range(rng.randint(1, len(cands))):
+            c = rng.choices(cands, wts)[0]
+            if c not in r:
+                r.append(c)
+        bid = bids[i] if i < len(bids) and rng.random() < 0.6 else f"h{i}"
+        prof[bid] = {con.name: {c: k for k, c in enumerate(r)}}
+    return prof
+
+
 def tally_cases(ctx, res, A, RU, RR, ids):
     rng = ctx.rng
+    stats_hist = res.stats.setdefault("re-tally worlds with an earlier search", {})
     text, contests, blines = gen_file(rng, ids, profile=True)
     acvrs, gcons, gcvrs = read_both(A, RU, text)
     world = (pick_rep(rng, 0.3), pick_rep(rng, 0.3)) if rng.random() < 0.5 else None
@@ -608,14 +626,44 @@ def tally_cases(ctx, res, A, RU, RR, ids):
         w = irv_winner(con.candidates, ballots)
         if w is None:
             continue
-        out = RR.compute_raire_assertions(con, gcvrs, w, lambda tw, tl, to, tot: F(tot, tw - tl), False)
+        asn = lambda tw, tl, to, tot: F(tot, tw - tl)   # noqa: E731
+        # history on shared state: in half of the worlds the SAME Contest object is first searched with another random
+        # profile over the same candidates (in half of those through the same cvrs dict and ballot dict objects, then
+        # mutated in place to the profile under test); everything below applies to the second call as to a fresh one
+        hist = rng.choice([None, None, "same Contest object", "same Contest, cvrs and ballot dict objects"])
+        use = gcvrs
+        if hist:
+            other = other_profile(rng, con, list(gcvrs))
+            w0 = irv_winner(con.candidates, [order_of(v[con.name]) for v in other.values() if con.name in v])
+            RR.compute_raire_assertions(con, other, w0 if w0 is not None else rng.choice(con.candidates), asn, False)
+            if hist.endswith("objects"):
+                keep = {b: v for b, v in other.items()}
+                other.clear()
+                for b, v in gcvrs.items():
+                    if b in keep:                       # reuse the card's dict and its ballot dict objects
+                        card = keep[b]
+                        inner = card.get(con.name)
+                        card.clear()
+                        for k, d in v.items():
+                            if k == con.name and inner is not None:
+                                inner.clear()
+                                inner.update(d)
+                                card[k] = inner
+                            else:
+                                card[k] = d
+                        other[b] = card
+                    else:
+                        other[b] = v
+                use = other
+            stats_hist[hist] = stats_hist.get(hist, 0) + 1
+        out = RR.compute_raire_assertions(con, use, w, asn, False)
         asrts, jas = [], []
         for a in out:
             if a is None:
                 continue
             ck = key(a.contest) if isinstance(a.contest, str) and a.contest in names else FOREIGN
-            rw = sum(a.is_vote_for_winner(v) for v in gcvrs.values())
-            rl = sum(a.is_vote_for_loser(v) for v in gcvrs.values())
+            rw = sum(a.is_vote_for_winner(v) for v in use.values())
+            rl = sum(a.is_vote_for_loser(v) for v in use.values())
             vw, vl = int(a.votes_for_winner), int(a.votes_for_loser)
             neb = type(a).__name__ == "NEBAssertion"
             ja = ("NEB", a.winner, a.loser) if neb else ("NEN", a.winner, a.loser, list(a.eliminated))
@@ -628,7 +676,7 @@ def tally_cases(ctx, res, A, RU, RR, ids):
                     "what": f"{ja[0]} assertion returned by compute_raire_assertions does not reproduce its reported "
                             "tallies when re-applied to the CVRs through its own predicates",
                     "input": {"text": text, "contest": con.name, "winner": w, "assertion": json_of(ja),
-                              "raire_cvrs": repr(gcvrs)},
+                              "raire_cvrs": repr(use), "earlier_search_on": hist},
                     "observed": {"votes_for_winner": vw, "votes_for_loser": vl, "retally_winner": rw,
                                  "retally_loser": rl, "assertion.contest": repr(a.contest)},
                     "signature": f"C14:retally:{ja[0]}"})
@@ -651,6 +699,7 @@ def tally_cases(ctx, res, A, RU, RR, ids):
         if asrts:
             cases.append({"name": key(con.name), "cvrs": cvrs_model, "asrts": asrts,
                           "json": {"stream": "tally", "text": text, "contest": con.name, "winner": w,
+                                   "earlier_search_on": hist,
                                    "assertions": [json_of(j) for j, _, _ in jas]}})
             res.nontrivial.add(("tally", text, con.name))
     return cases
